@@ -99,7 +99,7 @@ def gen(run, tag, warm, alpha, steps, defer, addpath, exh, num=0, seed=1, timeou
 def design(run, thorough):
     """mechanism => property, exhaustively; and each known defect is a design-level counterexample"""
     sizes = [("a", 5, 13 if thorough else 9), ("a", 0, 12 if thorough else 8), ("b", 5, 10 if thorough else 7),
-             ("c", 0, 13 if thorough else 9)]
+             ("c", 0, 13 if thorough else 9), ("d", 0, 10 if thorough else 8)]
     for pool, defer, n in sizes:
         cfg = "MCVrfRtc_%s_%d_%d.cfg" % (pool, defer, n)
         v.write_cfg(run.sc, cfg, MC_CFG % {"defects": "{}", "n": n, "defer": defer, "pool": pool})
@@ -157,17 +157,17 @@ def scan(run, traces, defects, batch=1500):
     return out
 
 
-def execute_sharded(run, behs, tag, shards):
+def execute_sharded(run, behs, tag, shards, timeout=2400):
     """the harness is single-threaded per process (one synctest bubble at a time): run several
     processes side by side, each on a contiguous slice of the behaviours"""
     if shards <= 1 or len(behs) < 200:
-        return run.execute("c17", "pkg/server", "^TestVerifC17$", behs, tag=tag, timeout=2400)
+        return run.execute("c17", "pkg/server", "^TestVerifC17$", behs, tag=tag, timeout=timeout)
     from concurrent.futures import ThreadPoolExecutor
     run.overlay("c17", "pkg/server")        # build the overlay once, before the threads start
     n = (len(behs) + shards - 1) // shards
     parts = [behs[i:i + n] for i in range(0, len(behs), n)]
     with ThreadPoolExecutor(max_workers=len(parts)) as ex:
-        futs = [ex.submit(run.execute, "c17", "pkg/server", "^TestVerifC17$", p, tag="%s-%d" % (tag, i), timeout=2400)
+        futs = [ex.submit(run.execute, "c17", "pkg/server", "^TestVerifC17$", p, tag="%s-%d" % (tag, i), timeout=timeout)
                 for i, p in enumerate(parts)]
         res = [f.result() for f in futs]
     return [t for r in res for t in r]
@@ -251,9 +251,9 @@ def groups(thorough, seed):
     s = seed * 100
     g = []
     sims = [("vrf", "full", 5, False), ("rtc", "full", 0, False), ("all", "full", 5, False),
-            ("none", "full", 5, False), ("sess", "full", 0, False), ("all", "full", 0, True)]
+            ("none", "full", 5, False), ("sess", "full", 0, False), ("all", "full", 0, True), ("life", "full", 0, False)]
     for i, (warm, alpha, defer, ap) in enumerate(sims):
-        warmlen = {"none": 0, "sess": 2, "vrf": 4, "rtc": 7, "all": 8}[warm]
+        warmlen = {"none": 0, "sess": 2, "vrf": 4, "rtc": 7, "all": 8, "life": 9}[warm]
         g.append(("sim-%s-%d%s" % (warm, defer, "-ap" if ap else ""),
                   dict(warm=warm, alpha=alpha, steps=warmlen + (10 if thorough else 8), defer=defer, addpath=ap,
                        exh=False, num=(40 if thorough else 6), seed=s + i)))
@@ -265,6 +265,17 @@ def groups(thorough, seed):
     # two VPN routes (different RD) with one IP prefix, both / one / none imported by the CE's VRF
     g.append(("exh-coll", dict(warm="vrf", alpha="coll", steps=4 + (4 if thorough else 3), defer=0, addpath=False, exh=True,
                                only=("VAnn", "VWd", "CeUp", "CeDown"))))
+    # VRF lifecycle (delete / re-add with the same and with another RD, inject / delete routes) while the
+    # VPN NLRI the VRF originates is also learned from an eBGP PE and from an iBGP PE with LOCAL_PREF 200 / 50
+    # several memberships for one target (two origin AS) and the default, announced / withdrawn in every order
+    g.append(("exh-mem", dict(warm="mem", alpha="mem", steps=4 + (4 if thorough else 3), defer=0, addpath=False, exh=True,
+                              only=("MAnn", "MWd"))))
+    # a VPN route announced, re-announced unchanged, withdrawn; memberships before / after (the RT index)
+    g.append(("exh-idx", dict(warm="idx", alpha="idx", steps=3 + (5 if thorough else 4), defer=0, addpath=False, exh=True,
+                              only=("VAnn", "VWd", "MAnn", "MWd"))))
+    life = ("AddVrf", "DelVrf", "ApiAdd", "ApiDel", "VAnn", "VWd")
+    g.append(("exh-life", dict(warm="life", alpha="life", steps=9 + (3 if thorough else 2), defer=0, addpath=False, exh=True, only=life)))
+    g.append(("exh-life2", dict(warm="life2", alpha="life", steps=10 + 2, defer=0, addpath=False, exh=True, only=life)))
     return g
 
 
@@ -287,7 +298,10 @@ def main(run):
             behs = dedupe(behs)
         if not behs:
             continue
-        traces = execute_sharded(run, behs, "c17-" + batch, 6 if thorough else 4)
+        # go1.25.0's synctest occasionally spins for ever inside the runtime (sync.WaitGroup.Add ->
+        # synctest.associate -> specialFindSplicePoint; seen twice in ~10 runs, on the unchanged tree too):
+        # a short go test timeout dumps the goroutines and the framework runs the shard once more
+        traces = execute_sharded(run, behs, "c17-" + batch, 6 if thorough else 4, timeout=1500 if thorough else 100)
         validate_group(run, traces, behs, batch)
         if run.violations:
             break
@@ -301,7 +315,8 @@ RULE = ("schedules = TLC -simulate walks of VrfRtcGen.tla after forced warm-up p
         "DeletePath with VRF id, session down/up, Tick), plus the EXHAUSTIVE enumeration by TLC (breadth-first) of every "
         "sequence of 2-3 free events over a small alphabet after each warm-up, of every cold sequence of 3-4 events and "
         "of every sequence of 3-4 announce/withdraw/CE-restart events on the two colliding VPN NLRIs; executed on the "
-        "real BgpServer in virtual time with three scripted neighbours; after every step at exact quiescence ListVrf, "
+        "real BgpServer in virtual time with four scripted neighbours (incl. an iBGP PE announcing, with LOCAL_PREF 200 / 50, the "
+        "VPN NLRI a local VRF originates: exhaustive VRF delete / re-add / inject sequences around it); after every step at exact quiescence ListVrf, "
         "ListPath(VRF), the global VPNv4 table and the decoded wire views of the RTC, VPN and CE neighbours are compared "
         "by TLC with the property layer. non-trivial = distinct (VPN routes, memberships, VRFs, sessions, waiting) states "
         "with a VPN route and (a membership at the RTC neighbour or a VRF)")
@@ -310,8 +325,9 @@ ASSUMPTIONS = [
     "the property layer of VrfRtc.tla (Imports, VrfVisible, CeExport/CeOk, VrfOriginatedExport, RtcExport) is my "
     "transcription of the property text / RFC 4364 4.3 / RFC 4684 6",
     "VPNv4 (l3vpn-ipv4-unicast) only: EVPN, VPNv6, flowspec-VPN and MUP are not exercised",
-    "one path per VPN NLRI (distinct RDs per source): best-path selection among the paths of one VPN NLRI is outside "
-    "this check; when two imported VPN routes share an IP prefix the CE must hold one of them, which one is free",
+    "at most three paths per VPN NLRI (originated in a VRF, eBGP PE, iBGP PE with LOCAL_PREF 200 / 50): best-path "
+    "selection is modelled by LOCAL_PREF then local origin only; when two imported VPN routes share an IP prefix the CE "
+    "must hold one of them, which one is free; a non-best imported path is not required at the CE",
     "no import/export policy ('accepted' membership = received membership); no graceful restart on the sessions",
     "while the RTC End-of-RIB wait lasts only 'nothing unrequested is sent' is required (the property text is silent)",
     "the MPLS label of a VRF is set white box (it is allocated through zebra in production)",
